@@ -224,6 +224,16 @@ Proof.
   - (* a binary operator has a level below the unary one *) exfalso. destruct op; cbn in Hlv; discriminate.
 Qed.
 
+(* ---------- where an expression may start ---------- *)
+Definition no_minus (txt : bstr) : Prop := match txt with 45%N :: _ => False | _ => True end.
+Definition pos_ok (P : N -> Prop) (txt : bstr) : Prop := (forall ty, P ty -> opnd ty) \/ no_minus txt.
+Lemma pos_ok_opnd txt : pos_ok opnd txt. Proof. left. auto. Qed.
+Lemma pos_ok_minus P r : pos_ok P (45%N :: r) -> forall ty, P ty -> opnd ty.
+Proof. intros [H|H]; [exact H|contradiction H]. Qed.
+(* the leftmost operand of a binary or ternary operator, printed without parentheses *)
+Lemma pos_ok_left P (b : bool) (s1 w r : bstr) : b = false -> pos_ok P ((if b then w else s1) ++ r) -> pos_ok P s1.
+Proof. intros -> [H|H]; [left; exact H|right]. destruct s1; [exact I|exact H]. Qed.
+
 Section Main.
 Variable uni_letter uni_digit : Z -> bool.
 Hypothesis letter_ascii : forall c, (c < 128)%N -> uni_letter (Z.of_N c) = ((65 <=? c) && (c <=? 90) || (97 <=? c) && (c <=? 122))%N.
@@ -239,6 +249,10 @@ Notation W lem := (lem uni_letter uni_digit letter_ascii digit_ascii letter_eof 
 Lemma L_wrap (b : bool) s ts : L opnd fexp s ts term ->
   L opnd fexp (if b then [40%N] ++ s ++ [41%N] else s) (if b then [T_lp] ++ ts ++ [T_rp] else ts) term.
 Proof. intros H. destruct b; [apply (W L_paren); exact H|exact H]. Qed.
+(* the leftmost operand, whatever the last item was: in parentheses the inside is an operand position *)
+Lemma L_wrap_P (P : N -> Prop) (b : bool) s ts : L opnd fexp s ts term -> (b = false -> L P fexp s ts term) ->
+  L P fexp (if b then [40%N] ++ s ++ [41%N] else s) (if b then [T_lp] ++ ts ++ [T_rp] else ts) term.
+Proof. intros H H'. destruct b; [apply (W L_paren); exact H|exact (H' eq_refl)]. Qed.
 
 Lemma fexp_num frac ex s : fexp s -> num_follow frac ex s.
 Proof.
@@ -246,12 +260,15 @@ Proof.
 Qed.
 
 (* a keyword used as a value *)
-Lemma L_keyword c0 cs t : (c0 < 128)%N -> letter_b c0 = true -> alnums cs -> word_type (c0 :: cs) = t ->
-  t <> itemLiteral -> t <> itemCss -> ends_term t = true -> L opnd fexp (c0 :: cs) [(t, c0 :: cs)] term.
+Lemma L_keyword_P (P : N -> Prop) c0 cs t : (c0 < 128)%N -> letter_b c0 = true -> alnums cs -> word_type (c0 :: cs) = t ->
+  t <> itemLiteral -> t <> itemCss -> ends_term t = true -> L P fexp (c0 :: cs) [(t, c0 :: cs)] term.
 Proof.
   intros H0 H1 H2 Ht Hn1 Hn2 He. pose proof (W lexes_word c0 cs H0 H1 H2) as Hw. rewrite Ht in Hw.
   eapply lexes_weaken; [apply (W L_eq_term _ _ _ _ _ (Hw Hn1 Hn2) He)|intros; exact I|apply fexp_stops|auto].
 Qed.
+Lemma L_keyword c0 cs t : (c0 < 128)%N -> letter_b c0 = true -> alnums cs -> word_type (c0 :: cs) = t ->
+  t <> itemLiteral -> t <> itemCss -> ends_term t = true -> L opnd fexp (c0 :: cs) [(t, c0 :: cs)] term.
+Proof. apply L_keyword_P. Qed.
 
 (* the text of a non-negative integer is a non-empty run of digits *)
 Lemma dec_of_Z_digits z : (0 <= z)%Z -> all_digits (dec_of_Z z) /\ dec_of_Z z <> [].
@@ -262,8 +279,8 @@ Proof.
 Qed.
 
 (* a dotted name: identifier, then one .ident per dot *)
-Lemma L_global first rest : plain_word first -> Forall dot_seg rest ->
-  L opnd fexp (first ++ concat_b rest) ((itemIdent, first) :: map (fun sg => (itemDotIdent, sg)) rest) term.
+Lemma L_global_P (P : N -> Prop) first rest : plain_word first -> Forall dot_seg rest ->
+  L P fexp (first ++ concat_b rest) ((itemIdent, first) :: map (fun sg => (itemDotIdent, sg)) rest) term.
 Proof.
   intros Hf Hr.
   set (accs := map (fun sg => (sg, [(itemDotIdent, sg)])) rest).
@@ -276,7 +293,7 @@ Proof.
     apply (W L_acc_key false cs Hcs Hd). }
   change ((itemIdent, first) :: map (fun sg => (itemDotIdent, sg)) rest) with ([(itemIdent, first)] ++ map (fun sg => (itemDotIdent, sg)) rest).
   rewrite <- Hsnd. rewrite <- Hfst at 1.
-  refine (W L_seq _ _ _ _ _ _ _ _ _ _ (W L_anyP opnd _ _ _ _ (W L_ident first Hf))
+  refine (W L_seq _ _ _ _ _ _ _ _ _ _ (W L_anyP P _ _ _ _ (W L_ident first Hf))
             (W L_weaken _ _ _ _ _ _ _ _ (W L_accs accs Hall) (fun ty H => H) (fun s (H : fexp s) => or_introl H) (fun ty H => H)) _ _).
   - intros s Hs. assert (Hfa : facc (concat_b (map fst accs) ++ s)).
     { destruct accs as [|[t2 ts2] accs']; [left; exact Hs|]. right. cbn [map concat_b fst].
@@ -284,6 +301,9 @@ Proof.
     apply (proj1 (facc_stops uni_letter uni_digit letter_ascii digit_ascii letter_eof digit_eof _ Hfa)).
   - auto.
 Qed.
+Lemma L_global first rest : plain_word first -> Forall dot_seg rest ->
+  L opnd fexp (first ++ concat_b rest) ((itemIdent, first) :: map (fun sg => (itemDotIdent, sg)) rest) term.
+Proof. apply L_global_P. Qed.
 
 Lemma concat_concat_b (l : list bstr) : List.concat l = concat_b l.
 Proof. induction l as [|a l IH]; [reflexivity|]. cbn. rewrite IH. reflexivity. Qed.
@@ -291,32 +311,38 @@ Proof. induction l as [|a l IH]; [reflexivity|]. cbn. rewrite IH. reflexivity. Q
 Lemma toks_path e path : map tv (show sty_min path e) = toks e.
 Proof. unfold toks, tokens_of. rewrite (show_min_path e path []). reflexivity. Qed.
 
-Theorem lex_print : forall e, wf_expr e -> lex_ok e -> forall txt, print_node e = Some txt -> L opnd fexp txt (toks e) term.
+(* [pos_ok P txt]: where the text starts, the last item sent has a type in P: either an operand may start there
+   (lexNegative reads "-" as the unary minus), or the text does not start with "-" (the first character decides
+   without looking at the last item) *)
+Theorem lex_print_gen : forall e, wf_expr e -> lex_ok e -> forall txt, print_node e = Some txt ->
+  forall P : N -> Prop, pos_ok P txt -> L P fexp txt (toks e) term.
 Proof.
-  induction e as [e IH] using size_induction. intros Hwf Hlo txt Hp.
+  induction e as [e IH0] using size_induction. intros Hwf Hlo txt Hp P HP.
+  assert (IH : forall y, (size y < size e)%nat -> wf_expr y -> lex_ok y -> forall t, print_node y = Some t -> L opnd fexp t (toks y) term).
+  { intros y Hy Hwy Hly t Ht. exact (IH0 y Hy Hwy Hly t Ht opnd (pos_ok_opnd t)). }
   destruct e; cbn [wf_expr] in Hwf; try contradiction; cbn [lex_ok] in Hlo; try contradiction; cbn [print_node] in Hp.
-  - (* null *) injection Hp as <-. apply (L_keyword 110%N [117; 108; 108]%N itemNull); try reflexivity; try discriminate; lia.
+  - (* null *) injection Hp as <-. apply (L_keyword_P P 110%N [117; 108; 108]%N itemNull); try reflexivity; try discriminate; lia.
   - (* bool *) injection Hp as <-. destruct x.
-    + apply (L_keyword 116%N [114; 117; 101]%N itemBool); try reflexivity; try discriminate; lia.
-    + apply (L_keyword 102%N [97; 108; 115; 101]%N itemBool); try reflexivity; try discriminate; lia.
+    + apply (L_keyword_P P 116%N [114; 117; 101]%N itemBool); try reflexivity; try discriminate; lia.
+    + apply (L_keyword_P P 102%N [97; 108; 115; 101]%N itemBool); try reflexivity; try discriminate; lia.
   - (* int *) injection Hp as <-. destruct (dec_of_Z_num z) as (hs & ip & E & Hok). unfold toks, tokens_of. cbn [show map tv t_typ t_val tk]. rewrite E.
-    eapply lexes_weaken; [apply (W L_eq_term _ _ _ _ _ (W lexes_number hs ip None None Hok) eq_refl)|intros ty Hty _; exact Hty|apply fexp_num|auto].
+    eapply lexes_weaken; [apply (W L_eq_term _ _ _ _ _ (W lexes_number hs ip None None Hok) eq_refl)|intros ty Hty Hhs; subst hs; rewrite E in HP; exact (pos_ok_minus P _ HP ty Hty)|apply fexp_num|auto].
   - (* float *) rewrite Hp in Hlo. destruct Hlo as (hs & ip & frac & ex & -> & Hok & Hty). unfold toks, tokens_of. cbn [show map tv t_typ t_val tk]. rewrite Hp.
     change pk_itemFloat with itemFloat. rewrite <- Hty.
-    eapply lexes_weaken; [apply (W L_eq_term _ _ _ _ _ (W lexes_number hs ip frac ex Hok)); rewrite Hty; reflexivity|intros ty Hy _; exact Hy|apply fexp_num|auto].
+    eapply lexes_weaken; [apply (W L_eq_term _ _ _ _ _ (W lexes_number hs ip frac ex Hok)); rewrite Hty; reflexivity|intros ty Hy Hhs; subst hs; exact (pos_ok_minus P _ HP ty Hy)|apply fexp_num|auto].
   - (* string *) injection Hp as <-. destruct Hlo as (rs & -> & Hv & Hok). unfold toks, tokens_of. cbn [show map tv t_typ t_val tk].
     eapply lexes_weaken; [apply (W L_eq_term _ _ _ _ _ (W lexes_string rs Hv Hok) eq_refl)|intros; exact I|intros; exact I|auto].
   - (* global *) injection Hp as <-. unfold dotted_ok in Hlo. unfold toks, tokens_of. cbn [show]. unfold global_toks.
     pose proof (split_dots_concat name []) as Hc. cbn [app] in Hc.
     destruct (split_dots [] name) as [|first rest]; [contradiction|]. destruct Hlo as [Hf Hr].
     rewrite <- Hc. cbn [List.concat]. rewrite concat_concat_b. cbn [map tv t_typ t_val tk]. rewrite map_map. cbn [tv t_typ t_val tk].
-    apply (L_global first rest Hf Hr).
+    apply (L_global_P P first rest Hf Hr).
   - (* func *) destruct Hlo as [Hn Hla]. destruct (opt_all (map print_node args)) as [l|] eqn:El; cbn [obind] in Hp; [|discriminate].
     injection Hp as <-.
     destruct (opt_all_items print_node toks args l El) as (A1 & A2 & A3).
     assert (Hall : forall it, In it (combine l (map toks args)) -> L opnd fexp (fst it) (snd it) term).
     { intros it Hin. destruct (A3 it Hin) as (x & Hx & Hpx & ->). apply IH; [cbn [size]; pose proof (size_in_list x args Hx); lia|eapply allP_In; eassumption|eapply allP_In; eassumption|exact Hpx]. }
-    pose proof (W L_func name _ Hn Hall) as HL. rewrite A1, A2 in HL.
+    pose proof (W L_func_P P name _ Hn Hall) as HL. rewrite A1, A2 in HL.
     unfold toks at 1. unfold tokens_of. cbn [show map tv t_typ t_val tk]. rewrite map_app, map_tv_sep_join, map_mapi_from. cbn [map tv t_typ t_val tk].
     rewrite (mapi_from_ext_in _ (fun _ c => toks c)); [|intros i c Hc; rewrite sty_min_0; cbn [parens]; apply toks_path].
     rewrite mapi_from_const. exact HL.
@@ -325,12 +351,12 @@ Proof.
     destruct (opt_all_items print_node toks items l El) as (A1 & A2 & A3).
     assert (Hall : forall it, In it (combine l (map toks items)) -> L opnd fexp (fst it) (snd it) term).
     { intros it Hin. destruct (A3 it Hin) as (x & Hx & Hpx & ->). apply IH; [cbn [size]; pose proof (size_in_list x items Hx); lia|eapply allP_In; eassumption|eapply allP_In; eassumption|exact Hpx]. }
-    pose proof (W L_list _ Hall) as HL. rewrite A1, A2 in HL.
+    pose proof (W L_list_P P _ Hall) as HL. rewrite A1, A2 in HL.
     unfold toks at 1. unfold tokens_of. cbn [show map tv t_typ t_val tk]. rewrite map_app, map_tv_sep_join, map_mapi_from. cbn [map tv t_typ t_val tk].
     rewrite (mapi_from_ext_in _ (fun _ c => toks c)); [|intros i c Hc; rewrite sty_min_0; cbn [parens]; apply toks_path].
     rewrite mapi_from_const. exact HL.
   - (* map *) destruct items as [|kv0 items0].
-    { injection Hp as <-. exact (W L_empty_map). }
+    { injection Hp as <-. exact (W L_empty_map_P P). }
     remember (kv0 :: items0) as items eqn:Eitems.
     destruct (opt_all_kv (map (fun kv => (fst kv, print_node (snd kv))) items)) as [l|] eqn:El; cbn [obind] in Hp; [|discriminate].
     injection Hp as <-. destruct Hwf as [Hwa Hks].
@@ -350,9 +376,9 @@ Proof.
       pose proof (allP_In _ _ _ Hwa B3) as [_ Hwv]. pose proof (allP_In _ _ _ Hlo B3) as [(rs & Hq & Hv & Hok) Hlv]. cbn [fst snd] in *.
       rewrite Hq.
       apply (W L_entry rs _ _ Hv Hok). apply IH; [cbn [size]; pose proof (list_sum_In (fun kv => size (snd kv)) _ _ B3) as Hsz; cbn [snd] in Hsz; lia|exact Hwv|exact Hlv|exact B2]. }
-    assert (HL : L opnd fexp ([91%N] ++ join [44; 32]%N (map (fun kv => quote_key (fst kv) ++ s_colon_space ++ snd kv) l) ++ [93%N])
+    assert (HL : L P fexp ([91%N] ++ join [44; 32]%N (map (fun kv => quote_key (fst kv) ++ s_colon_space ++ snd kv) l) ++ [93%N])
                    (T_lb :: sepj [T_com] (map (fun kv => (itemString, quote_key (fst kv)) :: T_col :: toks (snd kv)) items) ++ [T_rb]) term).
-    { rewrite <- Hfst, <- Hsnd. exact (W L_list ents Hall). }
+    { rewrite <- Hfst, <- Hsnd. exact (W L_list_P P ents Hall). }
     unfold toks at 1. unfold tokens_of. rewrite Eitems. cbn [show]. rewrite <- Eitems.
     cbn [map tv t_typ t_val tk]. rewrite map_app, map_tv_sep_join, map_mapi_from. cbn [map tv t_typ t_val tk].
     rewrite (mapi_from_ext_in _ (fun _ kv => (itemString, quote_key (fst kv)) :: T_col :: toks (snd kv))).
@@ -377,7 +403,7 @@ Proof.
         unfold toks at 1. unfold tokens_of. cbn [show map tv t_typ t_val tk]. rewrite sty_min_0. cbn [parens]. rewrite map_app, toks_path. cbn [map tv t_typ t_val tk].
         split; [|destruct nullsafe; cbn; lia].
         pose proof (W L_acc_expr nullsafe sa (toks a) HLa) as HA. destruct nullsafe; exact HA. }
-    pose proof (W L_dataref key _ Hk Hall) as HL. rewrite A1, A2 in HL.
+    pose proof (W L_dataref_P P key _ Hk Hall) as HL. rewrite A1, A2 in HL.
     unfold toks at 1. unfold tokens_of. cbn [show map tv t_typ t_val tk].
     rewrite (mapi_from_ext_in _ (fun _ c => show sty_min [] c)); [|intros i c Hc; apply show_min_path].
     rewrite mapi_from_const, concat_map, map_map. exact HL.
@@ -386,7 +412,7 @@ Proof.
     unfold toks at 1. unfold tokens_of. cbn [show map tv t_typ t_val tk]. rewrite sty_min_0. cbn [Nat.add].
     rewrite map_tv_parens1, toks_path. unfold wrap_operand. rewrite ast_level_of_is_expr_level.
     change ast_prec_unary with lvl_unary.
-    exact (W L_not _ _ (L_wrap _ _ _ HLa)).
+    exact (W L_not_P P _ _ (L_wrap _ _ _ HLa)).
   - (* neg *) destruct (print_node e) as [sa|] eqn:Ea; cbn [obind] in Hp; [|discriminate]. cbv zeta in Hp.
     assert (HLa : L opnd fexp sa (toks e) term) by (apply IH; [cbn [size]; lia|exact Hwf|exact Hlo|exact Ea]).
     unfold toks at 1. unfold tokens_of. cbn [show map tv t_typ t_val tk]. rewrite sty_min_0. cbn [Nat.add].
@@ -395,12 +421,12 @@ Proof.
     destruct (expr_level e <? lvl_unary)%N eqn:Elv; cbn [orb].
     + (* the operand is parenthesised by its level *)
       cbn [app starts_with_digit] in Hp. change ((48 <=? 40) && (40 <=? 57))%N with false in Hp. cbv iota in Hp. injection Hp as <-.
-      exact (W L_neg _ _ (W L_paren opnd _ _ HLa) Hpar).
+      eapply lexes_weaken; [exact (W L_neg _ _ (W L_paren opnd _ _ HLa) Hpar)|exact (pos_ok_minus P _ HP)|auto|auto].
     + destruct (print_head e sa Hwf Hlo Ea Elv) as (c & r & -> & Hc & Hd).
       cbn [starts_with_digit] in Hp. change ((48 <=? c) && (c <=? 57))%N with (digit_b c) in Hp. rewrite Hd in Hp.
       destruct (neg_literal e) eqn:Enl; injection Hp as <-.
-      * (* -(5) *) exact (W L_neg _ _ (W L_paren opnd _ _ HLa) Hpar).
-      * refine (W L_neg _ _ HLa _). intros s. cbn. split; [exact Hc|exact Hd].
+      * (* -(5) *) eapply lexes_weaken; [exact (W L_neg _ _ (W L_paren opnd _ _ HLa) Hpar)|exact (pos_ok_minus P _ HP)|auto|auto].
+      * eapply lexes_weaken; [refine (W L_neg _ _ HLa _)|exact (pos_ok_minus P _ HP)|auto|auto]. intros s. cbn. split; [exact Hc|exact Hd].
   - (* bin *) destruct Hwf as [Hw1 Hw2]. destruct Hlo as [Hl1 Hl2].
     destruct (print_node e1) as [s1|] eqn:E1; cbn [obind] in Hp; [|discriminate].
     destruct (print_node e2) as [s2|] eqn:E2; cbn [obind] in Hp; [|discriminate]. injection Hp as <-.
@@ -409,8 +435,10 @@ Proof.
     unfold toks at 1. unfold tokens_of. cbn [show]. rewrite !sty_min_0. cbn [Nat.add].
     rewrite map_app. cbn [map]. rewrite !map_tv_parens1, !toks_path. unfold wrap_operand.
     rewrite !ast_level_of_is_expr_level, ast_levels_are_soy_levels.
+    unfold wrap_operand in HP. rewrite !ast_level_of_is_expr_level, ast_levels_are_soy_levels in HP.
     change (tv (op_tok op p)) with (op_tok_typ op, binop_name op).
-    apply (W L_bin op _ _ _ _ (L_wrap _ _ _ HL1) (L_wrap _ _ _ HL2)).
+    assert (Hsz1 : (size e1 < size (NBin op p e1 e2))%nat) by (cbn [size]; lia).
+    apply (W L_bin_P P op _ _ _ _ (L_wrap_P P _ _ _ HL1 (fun Eb => IH0 e1 Hsz1 Hw1 Hl1 s1 E1 P (pos_ok_left P _ _ _ _ Eb HP))) (L_wrap _ _ _ HL2)).
   - (* tern *) destruct Hwf as (_ & Hw1 & Hw2 & Hw3). destruct Hlo as (Hl1 & Hl2 & Hl3).
     destruct (print_node e1) as [s1|] eqn:E1; cbn [obind] in Hp; [|discriminate].
     destruct (print_node e2) as [s2|] eqn:E2; cbn [obind] in Hp; [|discriminate].
@@ -421,8 +449,20 @@ Proof.
     unfold toks at 1. unfold tokens_of. cbn [show]. rewrite !sty_min_0. cbn [Nat.add parens].
     rewrite map_app. cbn [map]. rewrite map_app. cbn [map]. rewrite map_tv_parens1, !toks_path. unfold wrap_operand.
     rewrite ast_level_of_is_expr_level. change (ast_prec_ternary + 1)%N with (lvl_ternary + 1)%N.
+    unfold wrap_operand in HP. rewrite ast_level_of_is_expr_level in HP. change (ast_prec_ternary + 1)%N with (lvl_ternary + 1)%N in HP.
     change (tv T_ternif) with T_tern. change (tv T_colon) with T_col.
-    apply (W L_tern _ _ _ _ _ _ (L_wrap _ _ _ HL1) HL2 HL3).
+    assert (Hsz1 : (size e1 < size (NTern p e1 e2 e3))%nat) by (cbn [size]; lia).
+    apply (W L_tern_P P _ _ _ _ _ _ (L_wrap_P P _ _ _ HL1 (fun Eb => IH0 e1 Hsz1 Hw1 Hl1 s1 E1 P (pos_ok_left P _ _ _ _ Eb HP))) HL2 HL3).
 Qed.
+
+Theorem lex_print : forall e, wf_expr e -> lex_ok e -> forall txt, print_node e = Some txt -> L opnd fexp txt (toks e) term.
+Proof. intros e Hwf Hlo txt Hp. exact (lex_print_gen e Hwf Hlo txt Hp opnd (pos_ok_opnd txt)). Qed.
+
+(* the expression where the last item sent ended a term (the list of {for $x in e}, after the identifier "in"):
+   the same items, provided the printed text does not start with "-" *)
+Theorem lex_print_any : forall e, wf_expr e -> lex_ok e -> forall txt, print_node e = Some txt -> no_minus txt ->
+  L anyty fexp txt (toks e) term.
+Proof. intros e Hwf Hlo txt Hp Hm. exact (lex_print_gen e Hwf Hlo txt Hp anyty (or_intror Hm)). Qed.
+
 
 End Main.
